@@ -82,6 +82,12 @@ func (p *Program) census(prop string) []*Obligation {
 						if chv != nil && chanFieldName(p, chv) == cs.Target {
 							hit = true
 						}
+						// "chan T": any channel of that type, however it is reached
+						if chv != nil && strings.HasPrefix(cs.Target, "chan ") {
+							if ct, ok := chv.Type().Underlying().(*types.Chan); ok && "chan "+typeRelName(p, ct.Elem()) == cs.Target {
+								hit = true
+							}
+						}
 					case "writers":
 						if st, ok := in.(*ssa.Store); ok {
 							if fa, ok := st.Addr.(*ssa.FieldAddr); ok {
@@ -109,7 +115,10 @@ func (p *Program) census(prop string) []*Obligation {
 		o := &Obligation{Name: fmt.Sprintf("census#%s[%s]#0", cs.Kind, cs.Target), Func: "census", Kind: "census", Detail: cs.Target,
 			Props: cs.Props, Goal: "true", Desc: fmt.Sprintf("%s of %s are among: %s", cs.Kind, cs.Target, strings.Join(cs.Allowed, ", ")),
 			Pos: fmt.Sprintf("%s:%d", shortFile(cs.File), cs.Line)}
-		if len(offenders) == 0 && found > 0 {
+		none := len(cs.Allowed) == 1 && cs.Allowed[0] == "none"
+		if none && found == 0 {
+			o.Res = &SolveResult{Status: "unsat", Solver: "census"}
+		} else if len(offenders) == 0 && found > 0 {
 			o.Res = &SolveResult{Status: "unsat", Solver: "census"}
 		} else if found == 0 {
 			o.Res = &SolveResult{Status: "unknown", Solver: "census", Output: "census target is never referenced: " + cs.Target}
